@@ -499,6 +499,7 @@ class Abstraction:
         self.subs = []      # (application, constant)
         self.seen = set()
         self.other_uf = False
+        self.heavy_ids = set()
 
     def extend(self, ts):
         """Register the applications occurring in *ts*; returns new axioms."""
@@ -534,7 +535,9 @@ class Abstraction:
         for a, c in pending:
             new_sqrt.append((self.apply(a.arg(0)), c))
         new_erf = [(self.apply(x), c) for x, c in new_erf]
-        ax = _erf_axioms(new_erf, self.erf) + _sqrt_axioms(new_sqrt, self.sqrt)
+        sq = _sqrt_axioms(new_sqrt, self.sqrt)
+        self.heavy_ids.update(a.get_id() for a in sq)
+        ax = _erf_axioms(new_erf, self.erf) + sq
         self.erf += new_erf
         self.sqrt += new_sqrt
         return ax
@@ -575,9 +578,20 @@ class RUnit(_Unit):
         self.r["solver_checks"] += 1
         return r, (s.model() if r == "sat" else None), s
 
+    heavy = frozenset()   # ids of the polynomial (sqrt) axioms of the current obligation
+
     def solve(self, constraints, timeout_ms=None):
         constraints = list(constraints)
         total = timeout_ms or self.timeout_ms
+        if self.heavy:
+            # most obligations follow from the (linear) path facts alone: try without the
+            # polynomial axioms first -- fewer hypotheses, so 'unsat' stays sound
+            light = [c for c in constraints if c.get_id() not in self.heavy]
+            if len(light) < len(constraints):
+                res = _Unit.solve(self, light, 2000)
+                if res[0] == "unsat":
+                    return res
+                self.r["solver_checks"] -= 1
         if not self.pure:
             return _Unit.solve(self, constraints, total)
         # portfolio: the default solver is quick on the mostly-linear queries,
@@ -678,6 +692,7 @@ class PathProver:
             hyps, axioms = list(self.hyps), list(self.axioms)
         self.u.pure = not self.ab.other_uf
         self.u.prefer_nlsat = bool(self.ab.sqrt)
+        self.u.heavy = frozenset(self.ab.heavy_ids)
         handler = on_cex
         if on_cex is not None:
             if self.delta is not None:
@@ -688,6 +703,7 @@ class PathProver:
                                 mandatory=mandatory, sample=sample, blockers=blockers)
         finally:
             self.u.pure = False
+            self.u.heavy = frozenset()
 
     def _abstract_block(self, on_cex):
         """The characterising constraint of a finding is stated on the code's
